@@ -23,7 +23,8 @@ CHECKS = {
                 "cycles of the relative permutation (cycle-walk protocol), "
                 "and that from_sequence_and_distance merges zero-distance "
                 "objects into their representative (removal of entry and "
-                "column, index map, re-examination, symmetric rows).",
+                "column, index map, re-examination, symmetric rows)."
+                " The reduced distance rows reach the constructor unchanged or through a float conversion; an integer conversion (truncation before ranking) is a finding.",
         "design_ref": "DESIGN.md section 4, C20 and 10.2",
         "note": "Does NOT decide the integrality multiplier for half ranks "
                 "(neutral for the clauses above) nor the tag bookkeeping. "
@@ -51,7 +52,8 @@ CHECKS = {
                 "the failure row and time column; and the figure of merit: "
                 "every term of J (previous-row value squared times the time "
                 "step, gamma on controls, first states skipped), its cell "
-                "discipline, dest sizing and J = sum / simulated time.",
+                "discipline, dest sizing and J = sum / simulated time."
+                " D10.9: every call of run_ode / multi_run_ode passes a setting named like a callee parameter as that parameter and does not mix test_* and training_* settings in one run.",
         "design_ref": "DESIGN.md section 4, C10 and 10.2",
         "note": "Does NOT decide termination/accuracy inside scipy's RK45, "
                 "strict monotonicity of float times, agreement with "
@@ -344,7 +346,8 @@ CHECKS = {
                 "allocation or validator that establishes them; producers "
                 "(decoders) are checked to store bin ids inside the range "
                 "the consumers (objective kernels) rely on; a kernel "
-                "without contract or an unreached site is reported.",
+                "without contract or an unreached site is reported."
+                " The cache of generated network kernels is keyed injectively by all dimensions (shared obligation with C16 D16.9).",
         "design_ref": "DESIGN.md section 4, C13",
         "note": "Decides D13.1-D13.3. Lemmas assumed and named in the "
                 "evidence: L1 (first item fits the empty first bin, backed "
@@ -428,7 +431,8 @@ CHECKS = {
                 "0<=i<j<=n-2 and (i,j)!=(0,n-2) at the kernel, and the "
                 "kernel/register/evaluate wiring and the h-table size are "
                 "checked by symbolic dataflow."
-                " The kernel rules are path-wise: every path through a move kernel is followed symbolically; paths that write the tour must entail the acceptance criterion, reverse x[i..j] exactly once and return y + the 2-opt delta; every other path must entail the negated criterion and return y.",
+                " The kernel rules are path-wise: every path through a move kernel is followed symbolically; paths that write the tour must entail the acceptance criterion, reverse x[i..j] exactly once and return y + the 2-opt delta; every other path must entail the negated criterion and return y."
+                " When index arithmetic is not a pure ordering question, the move index contract is decided by evaluating the symbolic index expressions and path condition for all draws of instances with 2..8 cities (a counterexample is a finding, none is undecided).",
         "design_ref": "DESIGN.md section 4, C06",
         "note": "Decides D6.1-D6.5; the induction 'every registered y is "
                 "the true length' is by composition with C05. Trusted: "
@@ -466,7 +470,8 @@ CHECKS = {
                 "only tightens; the parser binds the first-filled list to "
                 "`flows`."
                 " The matrices are stored with the integer type of [0, stored upper bound]; the text loader's token range covers the largest bound the constructor accepts."
-                " On every path through the constructor the stored distance / flow matrix is the argument of that name or an element-wise conversion of it.",
+                " On every path through the constructor the stored distance / flow matrix is the argument of that name or an element-wise conversion of it."
+                " D9.5: a declared lower bound is neither above the best-known value of its instance nor above an objective value documented in a doctest (text parsed, not run).",
         "design_ref": "DESIGN.md section 4, C09",
         "note": "Decides D9.1-D9.4. Not decided: independence of line "
                 "wrapping (runtime tokenisation). Trusted: N1, property "
@@ -512,7 +517,8 @@ CHECKS = {
                 "emitted statements, definition of inputs, unique fresh "
                 "names, and the CodeGenerator's line/indent protocol."
                 " D16.9: the cache of make_ann is keyed by every parameter, looked up and filled under the same key, and what is cached is what is returned."
-                " Every division in a controller / system kernel is reached only under a test that excludes a zero divisor, decided by value and path by path.",
+                " Every division in a controller / system kernel is reached only under a test that excludes a zero divisor, decided by value and path by path."
+                " D16.9 also demands that the cache key cannot be produced by two different requests (numbers are not written directly after each other).",
         "design_ref": "DESIGN.md section 4, C16 and 10.2",
         "note": "Decides D16.0-D16.8. Does not decide: the value returned "
                 "by the min-ANN minimisers, the predefined literature "
